@@ -13,6 +13,10 @@ BASES = [
     dict(id="b5", pkg="no", comp="none", n=3, extra=0, seed=17, reduced=True),    # every pack in its own file
     # 1100 extra tiny contents: the content-info table of the content pack is a block of more than 4 KiB (mmap path of the file source)
     dict(id="b6", pkg="two", comp="none", n=4, extra=0, seed=19, cmax=7, orphans=1100, sparse=True),
+    # 16383 contents: the content-info table with its CRC is exactly 65536 bytes long (block sizes that are multiples of a
+    # reader's chunk size). Only flips aimed at the table are run, and only on the real reader: the list-based model needs
+    # half a minute to checksum a block of that size, so this base is outside the model tie (`nomodel`)
+    dict(id="b7", pkg="two", comp="none", n=4, extra=0, seed=23, cmax=7, orphans=16381, huge=True, nomodel=True),
 ]
 THOROUGH_BASES = [
     dict(id="b3", pkg="no", comp="lzma", n=6, extra=1, seed=15),
@@ -30,8 +34,25 @@ def files_of(base):
            ["c.extra%d.jbkc" % k for k in range(base["extra"])]
 
 
-def gen_ops(base, sizes, tier, rng, ranges=()):
+def info_table_positions(bdir, ranges):
+    """byte positions of the first and of the last content-info entries of every content pack (kind byte 'c')"""
+    out = []
+    for name, ppos, cp, cs, kb, cnt in ranges:
+        if int(kb) != 99:
+            continue
+        b = open(os.path.join(bdir, name), "rb").read()
+        ppos = int(ppos)
+        content_pos = int.from_bytes(b[ppos + 64:ppos + 72], "little")
+        count = int.from_bytes(b[ppos + 80:ppos + 84], "little")
+        start, end = ppos + content_pos, ppos + content_pos + 4 * count
+        out += [(name, p) for p in list(range(start, min(end, start + 4))) + list(range(max(start, end - 16), end))]
+    return out
+
+
+def gen_ops(base, sizes, tier, rng, ranges=(), aimed=()):
     """list of (file, op)"""
+    if base.get("huge"):
+        return [("c.jbk", "none")] + [(name, "flip:%d:%s" % (pos, mk)) for name, pos in aimed for mk in ("01", "80")]
     ops = [("c.jbk", "none")]
     for fname in files_of(base):
         if fname != "c.jbk":
@@ -137,12 +158,14 @@ def explore(res, tier, seed, only=None):
                 os.path.join(bdir, "c.jbk"), "".join("sibling %s %s\n" % (fn, os.path.join(bdir, fn)) for fn in files_of(b) if fn != "c.jbk")))
         C.run_model(rf, ro)
         ranges = [l.split(" ")[1:] for l in C.read_obs(ro).get("r", []) if l.startswith("range ")]
-        ops = gen_ops(b, sizes, tier, rng, ranges) if only is None else [("c.jbk", "none"), (only[1], only[2])]
+        ops = gen_ops(b, sizes, tier, rng, ranges, info_table_positions(bdir, ranges) if b.get("huge") else ()) if only is None else \
+            [("c.jbk", "none"), (only[1], only[2])]
+        pre_ranges = ranges
         keep = os.path.join(wd, "bases", b["id"])
         C.sh(["rm", "-rf", keep]); os.makedirs(os.path.dirname(keep), exist_ok=True)
         C.sh(["cp", "-r", bdir, keep])
         bdir = keep
-        out[b["id"]] = dict(base=b, dir=bdir, sizes=sizes, cases=[dict(id="%s_%d" % (b["id"], i), file=fn, op=op) for i, (fn, op) in enumerate(ops)])
+        out[b["id"]] = dict(base=b, dir=bdir, sizes=sizes, pre_ranges=pre_ranges, cases=[dict(id="%s_%d" % (b["id"], i), file=fn, op=op) for i, (fn, op) in enumerate(ops)])
         allcases += [(b, c) for c in out[b["id"]]["cases"]]
     casefile = os.path.join(wd, "cases.txt")
     # several readers at once on a sample of the damaged compressed containers (every one in a replay): the
@@ -172,6 +195,8 @@ def explore(res, tier, seed, only=None):
     shards = [os.path.join(wd, "model_cases_%d.txt" % k) for k in range(nsh)]
     fs = [open(p, "w") for p in shards]
     for i, (b, c) in enumerate(allcases):
+        if b.get("nomodel"):
+            continue
         f = fs[i % nsh]
         bdir = out[b["id"]]["dir"]
         f.write("case %s container\nmain %s\n" % (c["id"], os.path.join(bdir, "c.jbk")))
@@ -193,7 +218,7 @@ def explore(res, tier, seed, only=None):
         c["model"] = M.get(c["id"], [])
     for b in the_bases:
         o = out[b["id"]]
-        o["ranges"] = [l.split(" ")[1:] for l in o["cases"][0]["model"] if l.startswith("range ")]
+        o["ranges"] = [l.split(" ")[1:] for l in o["cases"][0]["model"] if l.startswith("range ")] if not b.get("nomodel") else o["pre_ranges"]
         o["cases"][0]["model"] = [l for l in o["cases"][0]["model"] if not l.startswith("range ")]
     C.sh(["rm", "-rf", tmp, os.path.join(wd, "iso_debug"), os.path.join(wd, "iso_release")])
     json.dump(out, open(cache, "w"))
